@@ -1,5 +1,5 @@
 (** * C07 -- measurement outcomes follow the Born rule (the part a model can carry) *)
-From QV Require Import Sampler Reg ScalarR C07T.
+From QV Require Import Sampler Reg ScalarR RegP C05T C07T C07T2.
 
 Theorem C07_probabilities : C07_probabilities_stmt.
 Proof. exact C07_probabilities_proof. Qed.
@@ -12,3 +12,11 @@ Print Assumptions C07_sampler_interval.
 Theorem C07_histogram_moments : C07_histogram_moments_stmt.
 Proof. exact C07_histogram_moments_proof. Qed.
 Print Assumptions C07_histogram_moments.
+
+Theorem C07_chain : C07_chain_stmt.
+Proof. exact C07_chain_proof. Qed.
+Print Assumptions C07_chain.
+
+Theorem C07_order : C07_order_stmt.
+Proof. exact C07_order_proof. Qed.
+Print Assumptions C07_order.
